@@ -2,6 +2,7 @@ package chaingen
 
 import (
 	"fmt"
+	"os"
 	"path/filepath"
 	"time"
 
@@ -18,7 +19,9 @@ type Scenario struct {
 	Rates OpRates
 	// SkipPct: probability in percent that a slot has no block (default 20)
 	SkipPct int
-	Init    func(c *Chain)
+	// MinEpochs: chains of this scenario are at least this long
+	MinEpochs int
+	Init      func(c *Chain)
 	// Mode: participation mode of epoch e
 	Mode func(c *Chain, e common.Epoch) string
 	// SyncMode: full|most|half|few|none|random
@@ -32,19 +35,22 @@ type Scenario struct {
 
 // ChainParams of one generated chain.
 type ChainParams struct {
-	Scenario    *Scenario
-	Dir         string
-	Name        string
-	Seed        uint64
-	Rng         *hx.Rng
-	Epochs      int
-	Plain       bool // plain minimal preset (forks only)
-	Corrupt     int  // number of corrupted blocks to derive
-	Cancel      int  // number of steps to run the cancellation sweep on
-	Engine      int  // number of steps to run the engine verdict sweep on
-	Genesis     int  // number of adversarial genesis records
-	ForkBias    string
-	WideForks   bool
+	Scenario   *Scenario
+	Dir        string
+	Name       string
+	Seed       uint64
+	Rng        *hx.Rng
+	Epochs     int
+	Plain      bool // plain minimal preset (forks only)
+	Corrupt    int  // number of corrupted blocks to derive
+	Cancel     int  // number of steps to run the cancellation sweep on
+	Engine     int  // number of steps to run the engine verdict sweep on
+	Genesis    int  // number of adversarial genesis records
+	ForkBias   string
+	WideForks  bool
+	OddVectors bool
+	// Retry: regenerate with another sub-seed (at most 6 times) until this counter is non-zero
+	RetryUntil  string
 	GenesisOnly bool // directory with genesis records only (C13 stream)
 }
 
@@ -60,8 +66,29 @@ type ChainResult struct {
 	Meta     map[string]interface{}
 }
 
-// Generate builds one chain directory.
-func Generate(pr ChainParams) (res ChainResult) {
+// Generate builds one chain directory (retrying with further sub-seeds when pr.RetryUntil names a counter that stayed 0).
+func Generate(pr ChainParams) ChainResult {
+	if pr.RetryUntil == "" {
+		return generateOnce(pr)
+	}
+	base := pr.Rng
+	var res ChainResult
+	for attempt := 0; attempt < 6; attempt++ {
+		p2 := pr
+		p2.Rng = base.Fork()
+		os.RemoveAll(pr.Dir)
+		res = generateOnce(p2)
+		if res.Stats != nil {
+			res.Stats.C["generation_attempts"] = attempt + 1
+		}
+		if res.Err == nil && res.Stats != nil && res.Stats.Get(pr.RetryUntil) > 0 {
+			break
+		}
+	}
+	return res
+}
+
+func generateOnce(pr ChainParams) (res ChainResult) {
 	t0 := time.Now()
 	res.Name, res.Dir = pr.Name, pr.Dir
 	var c *Chain
@@ -81,6 +108,9 @@ func Generate(pr ChainParams) (res ChainResult) {
 	}()
 	sc := pr.Scenario
 	r := pr.Rng
+	if sc.MinEpochs > pr.Epochs {
+		pr.Epochs = sc.MinEpochs
+	}
 	knobs := sc.Knobs
 	knobs.Epochs = pr.Epochs
 	knobs.PlainMinimal = pr.Plain
@@ -88,6 +118,9 @@ func Generate(pr ChainParams) (res ChainResult) {
 		knobs.ForkBias = pr.ForkBias
 	}
 	knobs.WideForks = pr.WideForks
+	if pr.OddVectors {
+		knobs.OddVectors = true
+	}
 	sp := TinySpec(r.Fork(), knobs)
 	if err := CheckSpec(sp); err != nil {
 		res.Err = err
@@ -136,6 +169,9 @@ func Generate(pr ChainParams) (res ChainResult) {
 		sc.Init(c)
 	}
 	err = c.Run(pr.Epochs)
+	if err == nil {
+		err = c.runErr
+	}
 	if err != nil {
 		res.Err = err
 	}
@@ -207,6 +243,12 @@ func (c *Chain) Run(epochs int) error {
 	if skip == 0 {
 		skip = 20
 	}
+	var firstRejection error
+	defer func() {
+		if firstRejection != nil && c.runErr == nil {
+			c.runErr = firstRejection
+		}
+	}()
 	for c.Slot() < last {
 		s := c.Slot() + 1
 		// choose the next proposal slot
@@ -231,6 +273,16 @@ func (c *Chain) Run(epochs int) error {
 			}
 		}
 		ok, err := c.Propose(s)
+		if rej, isRej := err.(*RejectedError); isRej {
+			c.rejections++
+			if firstRejection == nil {
+				firstRejection = rej
+			}
+			if c.rejections > 12 {
+				return rej
+			}
+			err = nil
+		}
 		if err != nil {
 			return err
 		}
